@@ -45,7 +45,7 @@ def evaluate(diff: Path, run_tests: bool, props):
         sid = diff.parent.name
         demo = diff.parent / "demo.py"
     else:
-        sid = f"{diff.parent.name.replace('seed-', '')}-{diff.stem.replace('change', '')}"
+        sid = f"{diff.parent.name.replace('seed2-', '').replace('seed-', '')}-{diff.stem.replace('change', '').replace('refactor', 'r')}"
         demo = diff.parent / diff.name.replace("change", "demo").replace(".diff", ".py")
     tmp = Path(tempfile.mkdtemp(prefix="usa-seed-"))
     res = {"id": sid, "diff": str(diff), "demo": str(demo)}
@@ -103,7 +103,7 @@ def main() -> int:
     props = [p for p in ns.props.split(",") if p] or PROPS
     diffs = []
     for d in ns.dirs:
-        diffs += sorted(Path(d).glob("change*.diff")) + sorted(Path(d).glob("patch.diff")) + sorted(Path(d).glob("*/patch.diff"))
+        diffs += sorted(Path(d).glob("change*.diff")) + sorted(Path(d).glob("refactor*.diff")) + sorted(Path(d).glob("patch.diff")) + sorted(Path(d).glob("*/patch.diff"))
     with ThreadPoolExecutor(ns.jobs) as ex:
         results = list(ex.map(lambda d: evaluate(d, ns.tests, props), diffs))
     Path(ns.out).mkdir(parents=True, exist_ok=True)
